@@ -2,10 +2,10 @@
 import itertools
 from .common import *  # noqa
 
-KEYS = {"comps", "flows", "flow_rates"}
+KEYS = {"comps", "flows", "flow_rates", "derived"}
 # observations whose model value is the property's specified value (a disagreement there is a failing input);
 # on the others the correspondence supports the tie and the oracle searches for the failing input
-SPEC_KEYS = {"comps", "flows", "flow_rates"}
+SPEC_KEYS = {"comps", "flows", "flow_rates", "derived"}
 
 
 def filters_for(prog, rng, thorough):
@@ -24,7 +24,7 @@ def filters_for(prog, rng, thorough):
 def run(tier, seed):
     n = tier_n(tier, 200, 2500)
     g = gen.Gen(seed * 7919 + 13)
-    progs = [g.program({"nstrat": g.rng.choice([1, 2, 2, 3]), "p_post": 0.6, "cross": 0.5}) for _ in range(n)]
+    progs = [g.program({"nstrat": g.rng.choice([1, 2, 2, 3]), "p_post": 0.6, "cross": 0.5, "nsteps": g.rng.choice([1, 2])}) for _ in range(n)]
     out = []
     nq = 0
     for p in progs:
@@ -55,6 +55,9 @@ def run(tier, seed):
             pv = g.params_values(small=True)
             x = fix_domain(p, st["comps"], g.state(nc, "pos"))
             p["obs"].append({"obs": "onestep", "params": pv, "t": gen.dy(g.rng, 0, 24, 2), "x": x})
+            # flow / compartment derived outputs select by name + strata too (twin requests: the same pairs on either end)
+            if any(o["op"] == "req" for o in p["ops"]) and ((not p["nonlinear"]) or nsteps(p) <= 2):
+                p["obs"].append({"obs": "run", "solver": "euler", "params": pv})
         out2.append(p)
     out = out2
     ex = checklib.explore(out, keys=KEYS, per_prog_timeout=30.0)
